@@ -136,6 +136,8 @@ UpPost(r, dig, alg, mount, from, chunk) ==
                  /\ resp' = [Ok(201) EXCEPT !.dig = dig]
                  /\ UNCHANGED <<sess, nsess>>
             ELSE resp' = Refused /\ UNCHANGED <<blob, sess, nsess, young>>
+  ELSE IF mount # "" /\ mount \in blob[r]         \* "mount" of something the repository already holds
+       THEN resp' = [Ok(201) EXCEPT !.dig = mount] /\ UNCHANGED <<blob, sess, nsess, young>>
   ELSE \* a new session; a mount that could not be satisfied falls back to a session expecting that digest
        LET h == Handle(nsess + 1) IN
        /\ nsess' = nsess + 1
@@ -331,6 +333,7 @@ Do(op) ==
     [] op.op = "ManPut"   -> ManPut(op.repo, op.ref, op.ctype, op.body, op.dparam) /\ UNCHANGED env
     [] op.op = "ManGet"   -> ManGet(op.repo, op.ref, op.range) /\ UNCHANGED env
     [] op.op = "ManDel"   -> ManDel(op.repo, op.ref) /\ UNCHANGED env
+    [] op.op = "TagsList" -> TagsList(op.repo, op.ni, op.last) /\ UNCHANGED env
     [] op.op = "Restart"  -> Restart /\ UNCHANGED env
     [] OTHER              -> UNCHANGED <<env, blob, man, tag, sess, nsess, young>> /\ resp' = R0
 
